@@ -244,6 +244,45 @@ func (w *World) userBody(ui int) {
 				return nil
 			})
 			w.asyncIssued(aid, err)
+		case "broadcastv":
+			// one batch ([][]byte) handed to AsyncWritev of two connections: the batch is
+			// the application's, it must still be what the application built when the
+			// second connection sends it (a short write on the first one must not eat into it)
+			cs2 := w.waitConn(op.To2-1, false)
+			if cs2 == nil || cs2 == cs || cs2.udp {
+				continue
+			}
+			id := w.newOpID()
+			total := 0
+			for _, s := range op.Segs {
+				total += s
+			}
+			data := outPayload(id, total)
+			var bs [][]byte
+			off := 0
+			for _, s := range op.Segs {
+				bs = append(bs, data[off:off+s])
+				off += s
+			}
+			w.probes["batch-given-to-two-connections"]++
+			pending := 2
+			for _, t := range []*connState{cs, cs2} {
+				t := t
+				aid := w.newAsync("asyncwritev", t.idx, ui)
+				w.asyncs[aid].seq = seq
+				err := t.c.AsyncWritev(bs, func(c gnet.Conn, err error) error {
+					defer vsched.Restore(vsched.EnterHarness())
+					w.asyncWriteDone(aid, t, id, total, c, err)
+					if pending--; pending == 0 {
+						scribble(data)
+					}
+					return nil
+				})
+				w.asyncIssued(aid, err)
+				if err != nil {
+					pending--
+				}
+			}
 		case "safectx":
 			// SetSafeContext / SafeContext / Fd from a goroutine of the application
 			w.safeCtxOps(cs, c, op.N, 100+ui)
